@@ -19,6 +19,7 @@ import Driver.C16
 import Driver.C17
 import Driver.C18
 import Driver.C19
+import Driver.C19Gen
 import Driver.C20
 
 /-
@@ -51,6 +52,7 @@ def dispatch (toks : List String) : String :=
   | "C16" :: rest => C16.handle rest
   | "C17" :: rest => C17.handle rest
   | "C18" :: rest => C18.handle rest
+  | "C19" :: "pgen" :: rest => C19Gen.handle rest
   | "C19" :: rest => C19.handle rest
   | "C20" :: rest => C20.handle rest
   | _ => badOp
